@@ -126,7 +126,11 @@ def run_case(i, rng, rec, tier, state):
             return
         if kind == "unknown":
             for F in [get_family(cf, f) for f in COUNTS] + [get_family(cf, "DOI:" + SCIENCE)]:
-                for bad in ("No Such Solid", "cube", ""):
+                first, mid = F.names[0], F.names[len(F.names) // 2]
+                near = [first + " ", " " + first, mid + "\n", "\t" + mid, mid.replace(" ", "  ") if " " in mid else mid + "  ", mid.replace(" ", "\u00a0") if " " in mid else "\u00a0" + mid,
+                        first.lower() if first.lower() != first else first.upper(), first.swapcase(), first + ".", first[:-1], first + first[-1]]
+                near = [x for x in dict.fromkeys(near) if x not in set(F.names)]
+                for bad in ["No Such Solid", "cube", ""] + near:
                     try:
                         F.get_shape(bad)
                         rec.violation("unknown-key-KeyError", "get_shape/unknown-name-accepted", {"name": bad})
